@@ -55,8 +55,10 @@ class DocActions(object):
       if not column.is_private() and column.col_id != "id":
         col_values = [column.raw_get(r) for r in row_ids]
         default = column.getdefault()
-        # If this column had all default values, don't include it into the undo BulkAddRecord.
-        if not all(strict_equal(val, default) for val in col_values):
+        # If this column had all default values, don't include it into the undo BulkAddRecord
+        # (unless it has a trigger formula: that would calculate a new value for an omitted cell).
+        if (column.has_formula() and not column.is_formula()) or \
+           not all(strict_equal(val, default) for val in col_values):
           undo_values[column.col_id] = col_values
       for row_id in row_ids:
         column.unset(row_id)
